@@ -9,7 +9,7 @@ entry points only produce trusted (assembler-made) data.
 """
 import os, re
 from lib import panics
-from lib.mir import strip_generics
+from lib.mir import strip_generics, same_value
 
 # --------------------------------------------------------------------------- helpers
 
@@ -348,7 +348,7 @@ def range_args_from_u16(F, site):
         def src(f):
             f = panics._unwrap_var(f)
             if f[0] == "call" and f[2] and (f[1] or "").endswith("for usize>::from"):
-                return panics._unwrap_var(f[2][0])
+                return f[2][0]
             return None
         xs = [src(f) for f in fields]
         if None in xs:
@@ -363,7 +363,7 @@ def range_args_from_u16(F, site):
             discr = panics._unwrap_var(b.expr_of_operand(t["discr"]))
             if not (discr[0] == "bin" and discr[1] == "Le"):
                 continue
-            if [panics._unwrap_var(discr[2]), panics._unwrap_var(discr[3])] != xs:
+            if not (same_value(discr[2], xs[0]) and same_value(discr[3], xs[1])):
                 continue
             # the site must lie on the "true" edge only
             if not b.dominates(t["otherwise"], site.block) or any(tb == t["otherwise"] for v, tb in t["values"]):
